@@ -13,7 +13,7 @@ from ..engine import Verdict, YadismError
 ID = "C08"
 RULE = (
     "Hypothesis draws a heavy flavour (charm with NfFF=3 or bottom with NfFF=4; heavier quarks get the same mass so that every "
-    "massive piece is in the asymptotic regime), its mass, a grid, x in [0.01,0.7] on/off nodes, process/kind from {NC,EM: F2, FL, g1; "
+    "massive piece is in the asymptotic regime), its mass, a grid, x between the lower grid edge (1e-4..3e-3) and 0.7 on/off nodes, process/kind from {NC,EM: F2, FL, g1; "
     "CC: F2, FL, F3}, heavyness {heavy flavour, light (missing), total}, PTO 0-2 and a ladder xi=Q2/m2 = 1e2,1e3,1e4,1e5,1e6 plus a "
     "generated intermediate value; FFNS and FFN0 are run on the same card. Oracle per order key and operator entry: "
     "D(xi) = max|O_FFNS - O_FFN0| / S with S = max(|O_FFN0 entries| at that xi, LO F2 parton-model entries) must satisfy "
@@ -28,7 +28,7 @@ ASSUMPTIONS = [
 ]
 BUDGET = {"quick": {"examples": 320, "wall": 500, "min_evaluations": 100}, "thorough": {"examples": 6000, "wall": 2400, "min_evaluations": 1500}}
 MANDATORY = {
-    t: ["nontrivial", "process:NC", "process:CC", "heavyness:heavy", "heavyness:light", "heavyness:total", "order:1", "order:2", "kind:F2", "kind:FL", "kind:g1", "kind:F3", "h:charm", "h:bottom"]
+    t: ["nontrivial", "process:NC", "process:CC", "heavyness:heavy", "heavyness:light", "heavyness:total", "order:1", "order:2", "kind:F2", "kind:FL", "kind:g1", "kind:F3", "h:charm", "h:bottom", "small-x:eta>1e8-reached"]
     for t in ("quick", "thorough")
 }
 SHRINK = {"quick": False, "thorough": True}
@@ -56,11 +56,12 @@ def cases(draw, tier="quick"):
         th.update({"mc": 1.0, "mb": m, "mt": m})
     grid = draw(cards.grids(nmin=6, nmax=8, umin=2.5, umax=4.0))
     g = grid["xgrid"]
-    cand = [x for x in g if 0.01 <= x <= 0.7]
+    # x anywhere in the grid below 0.7 (above, the massive side is below threshold for most of the ladder)
+    cand = [x for x in g if x <= 0.7]
     if cand and draw(st.booleans()):
         x = draw(st.sampled_from(cand))
     else:
-        x = round(draw(st.floats(0.01, 0.7)), 5)
+        x = float(f"{math.exp(draw(st.floats(math.log(g[0] * 1.02), math.log(0.7)))):.5g}")
     proj = draw(st.sampled_from(["electron", "positron"] if process == "EM" else cards.PROJECTILES))
     ob = cards.observables(prDIS=process, ProjectileDIS=proj)
     cards.apply_grid(ob, grid)
@@ -85,9 +86,16 @@ def row_class(delta, hq):
     return "q-singlet" if max(light) - min(light) <= 1e-6 * max(light) else "q-nonsinglet"
 
 
+def eta_region(x, xi):
+    """bucket suffix for points whose integration range reaches partonic eta = xi/4 (1/z-1) - 1 > 1e8 (z down to x)"""
+    return ":eta>1e8" if xi / 4.0 * (1.0 / x - 1.0) - 1.0 > 1e8 else ""
+
+
 def check_case(case):
     v = Verdict()
     th, ob, meta = case["theory"], copy.deepcopy(case["obs"]), case["meta"]
+    if eta_region(case["x"], 1e6):
+        v.label("small-x:eta>1e8-reached")
     name, kind, pto, x, m = meta["name"], meta["kind"], meta["pto"], case["x"], case["m"]
     hv = meta["heavyness"]
     xis = sorted(set(LADDER + [case["xi_extra"]]))
@@ -127,7 +135,7 @@ def check_case(case):
             v.metric(f"envelope:o{o}", d / env_)
             if not d <= env_:
                 v.fail(
-                    f"C08:limit:{'NC' if meta['process'] != 'CC' else 'CC'}:{kind}:{'heavy' if hv == case['h'] else hv}:order{o}:{rc[xi]}",
+                    f"C08:limit:{'NC' if meta['process'] != 'CC' else 'CC'}:{kind}:{'heavy' if hv == case['h'] else hv}:order{o}:{rc[xi]}{eta_region(x, xi)}",
                     f"{name} ({meta['process']}, {case['h']} massive, m={m}) x={x}: |FFNS-FFN0|/S = {d:.3e} at Q2/m2={xi:.3g}, order {o}; allowed {env_:.3e}; profile { {f'{k:.0e}': float(f'{val:.2e}') for k, val in ds.items()} }",
                 )
                 break
@@ -139,7 +147,7 @@ def check_case(case):
             v.metric(f"decay:o{o}", d6 / lim)
             if not d6 <= lim:
                 v.fail(
-                    f"C08:decay:{'NC' if meta['process'] != 'CC' else 'CC'}:{kind}:{'heavy' if hv == case['h'] else hv}:order{o}:{rc[1e6]}",
+                    f"C08:decay:{'NC' if meta['process'] != 'CC' else 'CC'}:{kind}:{'heavy' if hv == case['h'] else hv}:order{o}:{rc[1e6]}{eta_region(x, 1e6)}",
                     f"{name} ({meta['process']}, {case['h']} massive, m={m}) x={x}: |FFNS-FFN0|/S does not decay: {d2:.3e} at Q2/m2=1e2, {d6:.3e} at 1e6 (order {o})",
                 )
     v.nontrivial = nontrivial
